@@ -306,7 +306,7 @@ func init() {
 		"cmp.Compare": func(a *Act, st *State, c *ssa.Function, x []Val, p tokenPos) Val {
 			lt := app("<", x[0].T, x[1].T)
 			if a.u.D.SortOf(x[0].Typ) == "Str" {
-				lt = app("str_lt", x[0].T, x[1].T)
+				lt = app(a.u.D.StrLt(), x[0].T, x[1].T)
 			}
 			return t1(ite(lt, "(- 1)", ite(eq(x[0].T, x[1].T), "0", "1")), tInt)
 		},
